@@ -1,4 +1,4 @@
-\* thorough tier: <= 5 reactions over <= 5 intermediates, <= 7 nodes, <= 7 edges, cutoffs 0, 2..5
+\* thorough tier: <= 4 reactions over <= 4 intermediates, <= 6 nodes, <= 6 edges, cutoffs 0, 2..5
 SPECIFICATION Spec
 CONSTANTS
   Networks <- MCNetsBig
